@@ -516,6 +516,13 @@ main:
 			)
 		}
 
+		// Stop forces the read deadline into the past exactly once, after the service context
+		// is canceled. Do not leave it pushed forward by a packet that was still in flight,
+		// or the downlink, and with it Stop, would wait for the whole NAT timeout.
+		if ctx.Err() != nil {
+			_ = uplink.natConn.SetReadDeadline(conn.ALongTimeAgo)
+		}
+
 		qpvecn := qpvec[:count]
 
 		for i := range qpvecn {
